@@ -152,6 +152,10 @@ KEY_CHAIN = "using-alias-of-typedef-name"
 KEY_TWICE = "alias-name-declared-twice"
 KEY_CONST = "const-suggestion-skipped-for-typedef-pointer"
 CONST_IDS = {"constParameterPointer", "constVariablePointer", "constParameter", "constVariable", "constParameterCallback"}
+KEY_PORT = "address-to-integer-not-reported-for-typedef-integer"
+PORT_IDS = {"AssignmentAddressToInteger", "AssignmentIntegerToAddress", "CastAddressToIntegerAtReturn", "CastIntegerToAddressAtReturn"}
+KEY_MACRO = "duplicate-expression-not-reported-in-macro-expansion"
+MACRO_IDS = {"duplicateExpression"}
 KNOWN = {
     KEY_USING: "F06a simplifyUsing has no notion of hiding: a variable or parameter with the name of a `using` alias (declared anywhere in "
                "the file, even later or in another function) has its uses replaced by the aliased type "
@@ -159,11 +163,16 @@ KNOWN = {
     KEY_SHADOW: "F06b a variable / parameter that hides a typedef name is recognised by the neighbouring tokens only: `unsigned T ;`, `T T ;`, "
                 "`int f ( unsigned T )` and uses such as `return T ;` are rewritten with the typedef's type (`typedef char T; int f(void){ long T; T = 1; "
                 "return T; }` becomes `long T ; T = 1 ; return char ;`)",
-    KEY_TWICE: "F06d an alias name that is declared twice in the file (two scopes, e.g. `typedef int T;` in a block and `typedef long * T;` at "
-               "file scope) is left out by the one-pass simplification and an alias of it stays unexpanded "
-               "(`typedef long * T; typedef T U; int f(U p)` becomes `int f ( T p )` when another scope also declares T)",
+    KEY_TWICE: "F06d an alias name that is declared in two scopes (e.g. `typedef int T;` in a block and `typedef long * T;` at file scope, or a "
+               "block-scope `using T = int;` under a file-scope `typedef char * T;`) is left out by the one-pass simplification: an alias of it stays "
+               "unexpanded (`typedef long * T; typedef T U; int f(U p)` becomes `int f ( T p )`) or the declaration of the other scope is applied "
+               "(`T v;` after the inner `using T = int;` becomes `char * v`)",
     KEY_CONST: "F06e findings differ by design: `constParameterPointer` / `constVariablePointer` are reported for `short * p` but not for `T p` with "
                "`typedef short * T` (tokens of a simplified typedef are skipped by the const checks)",
+    KEY_PORT: "F06g findings differ by design: `AssignmentAddressToInteger` (and the three sibling ids of check64bit) is reported for `char c = p;` but "
+              "not for `C c = p;` with `typedef char C` (check64bit requires `originalTypeName.empty()`, so that uintptr_t-like typedefs are not flagged)",
+    KEY_MACRO: "F06f findings differ by design: `duplicateExpression` is reported for `16 / ( 1 - 1 )` but not for `16 / ZERO` with `#define ZERO ( 1 - 1 )` "
+               "(operands that come from a macro expansion are skipped by the check)",
     KEY_CHAIN: "F06c a `using` alias of a typedef name is expanded to the typedef NAME, which no longer exists: "
                "`typedef unsigned int uint; using Index = uint; int f(Index i)` becomes `int f ( uint i )` (typedef-of-typedef and using-of-using are expanded fully)",
 }
@@ -184,38 +193,68 @@ def declared(items, kinds):
     return out
 
 
-def classify(items):
-    """the known-finding class of a program (None = none): specific to what the program contains"""
-    if declared(items, "U") & declared(items, "V"):
+def stream_toks(l):
+    p = l.split(" ")
+    return unhx(p[1]).decode("latin-1").split(" ") if p[0] == "T" and p[1] != "-" else None
+
+
+def classify(items, prog=None, exp=None):
+    """The known-finding class of ONE deviation: decided by the first position at which the token stream of the program (`prog`)
+    and of its expansion (`exp`) differ, not by what else the program contains.
+      F06a  the expansion has there (or right after: `unsigned n` prints as `int n`) a name that the program declares both with `using`
+            and as variable / parameter  -- the program side has rewritten that variable
+      F06b  the same with a `typedef` name
+      F06d  the program side has there an alias name that the program declares twice (left unexpanded), or the declaration the
+            difference sits in names an alias that is declared in two scopes (the other scope's declaration was applied)
+      F06c  the program side has there a typedef name that a `using` declaration mentions (left unexpanded)
+    anything else: None (a violation)."""
+    if prog is None or exp is None:
+        return None
+    i = 0
+    while i < len(prog) and i < len(exp) and prog[i] == exp[i]:
+        i += 1
+    def nm(t):
+        m = re.fullmatch(r"n(\d+)", t or "")
+        return m.group(1) if m else None
+    ehere = [nm(t) for t in exp[i:i + 2]]
+    phere = nm(prog[i]) if i < len(prog) else None
+    vs, us, ts = declared(items, "V"), declared(items, "U"), declared(items, "T")
+    if any(x is not None and x in (us & vs) for x in ehere):
         return KEY_USING
-    if declared(items, "T") & declared(items, "V"):
+    if any(x is not None and x in (ts & vs) for x in ehere):
         return KEY_SHADOW
     al = [re.match(r"[TU](\d+):", w).group(1) for w in items if re.match(r"[TU]\d+:", w)]
-    if len(al) != len(set(al)):
+    if phere is not None and al.count(phere) >= 2:
         return KEY_TWICE
-    ts = declared(items, "T")
-    for w in items:
-        m = re.match(r"U\d+:(.*)$", w)
-        if m and any(("n%s." % t) in m.group(1) for t in ts):
-            return KEY_CHAIN
+    # the declaration the first difference sits in (its declared name is the next name token of the expansion) has a type that
+    # names an alias declared in two scopes: the other declaration was applied
+    nxt = next((nm(t) for t in exp[i:] if nm(t) is not None), None)
+    if nxt is not None:
+        for w in items:
+            m = re.match(r"V(\d+):([^:]*):", w) or re.match(r"F\d+:(\d+):(.*)$", w)
+            if m and m.group(1) == nxt and any(al.count(a) >= 2 for a in re.findall(r"n(\d+)\.", m.group(2))):
+                return KEY_TWICE
+    if phere is not None and phere in ts and any(re.match(r"U\d+:(.*)$", w) and ("n%s." % phere) in w.split(":", 1)[1] for w in items if w.startswith("U")):
+        return KEY_CHAIN
     return None
 
 
-def using_name_clash(items):
-    return classify(items) is not None
-
-
 def norm(l):
-    """a removed file-scope typedef leaves an empty declaration `;` behind a function body: empty statements are dropped
-    before the comparison (documented in docs/C06.md)"""
+    """a removed FILE-SCOPE typedef leaves an empty declaration `;` behind a function body: empty declarations at file scope
+    (brace depth 0) are dropped before the comparison; empty statements inside functions are kept"""
     p = l.split(" ")
     if p[0] != "T":
         return l
     toks = unhx(p[1]).decode("latin-1").split(" ")
     out = []
+    depth = 0
     for t in toks:
-        if t == ";" and (not out or out[-1] in ("}", ";", "{")):
+        if t == ";" and depth == 0 and (not out or out[-1] in ("}", ";")):
             continue
+        if t == "{":
+            depth += 1
+        elif t == "}":
+            depth -= 1
         out.append(t)
     return "T " + hx(" ".join(out)) + " " + " ".join(p[2:])
 
@@ -235,6 +274,34 @@ def _count(res, key):
     return _seen[key] <= (2 if key else 8)
 
 
+def gxx_oracle(res, name, probes):
+    """M1 (audit): an independent oracle for `events` / `expandWith`: every probe text (declarations + static_assert of the expanded
+    type of every declared name) must be accepted by g++ under its own name lookup.  One compiler process for all programs."""
+    import subprocess, bisect
+    lines, start = [], []
+    for k, t in enumerate(probes):
+        start.append(len(lines) + 1)
+        lines.append("namespace P%d {" % k)
+        lines += t.rstrip("\n").split("\n")
+        lines.append("}")
+    r = subprocess.run(["g++", "-std=c++17", "-fsyntax-only", "-w", "-x", "c++", "-"], input="\n".join(lines) + "\n",
+                       stdout=subprocess.PIPE, stderr=subprocess.PIPE, text=True)
+    bad = {}
+    for l in r.stderr.split("\n"):
+        m = re.match(r"<stdin>:(\d+):\d+: error: (.*)", l)
+        if m:
+            k = bisect.bisect_right(start, int(m.group(1))) - 1
+            bad.setdefault(k, m.group(2))
+    nass = sum(t.count("static_assert") for t in probes)
+    res.count("oracle-static_asserts", nass)
+    first = ""
+    if bad:
+        k = sorted(bad)[0]
+        first = "%s\n%s" % (bad[k], probes[k])
+    res.oblig("oracle:%s-g++-static_assert" % name, not bad and r.returncode == 0, "correspondence",
+              "" if not bad and r.returncode == 0 else "%d of %d probe programs rejected (rc %d); first: %s" % (len(bad), len(probes), r.returncode, first or r.stderr[-300:]))
+
+
 def tie(ctx, res, exe, drv, cases, name):
     """cases: list of (cpp, items, nontrivial)"""
     ops = ["ex " + " ".join(items) for cpp, items, nt in cases]
@@ -243,7 +310,7 @@ def tie(ctx, res, exe, drv, cases, name):
         raise core.CheckBroken("drv_c06: %d lines for %d ops (%s) %s" % (len(mo), len(ops), [m for m in mo if m == "bad-op"][:1], err[-300:]))
     hops = []
     for (cpp, items, nt), m in zip(cases, mo):
-        a, b, same = m.split()
+        a, b, same = m.split()[:3]
         hops.append("tk %s %s" % ("cpp" if cpp else "c", a))
         hops.append("tk %s %s" % ("cpp" if cpp else "c", b))
     rc, ho, err = core.run_lines(exe, [], hops, timeout=600)
@@ -252,22 +319,135 @@ def tie(ctx, res, exe, drv, cases, name):
     ho = [norm(x) for x in ho]
     selfbad = [ops[k] for k, m in enumerate(mo) if m.split()[2] != "1"]
     res.oblig("model:expandImpl=expandSpec-on-samples", not selfbad, "correspondence", "" if not selfbad else selfbad[0])
+    gxx_oracle(res, name, [unhx(m.split()[3]).decode() for m in mo])
     nts = dict((ops[k], cases[k][2]) for k in range(len(ops)))
-    keep = [k for k in range(len(ops)) if not (ho[2 * k] != ho[2 * k + 1] and using_name_clash(cases[k][1]))]
+    keys = {}
+    for k in range(len(ops)):
+        if ho[2 * k] != ho[2 * k + 1]:
+            keys[k] = classify(cases[k][1], stream_toks(ho[2 * k]), stream_toks(ho[2 * k + 1]))
+    # deviations of a known class are reported through P_impl below, everything else has to correspond
+    keep = [k for k in range(len(ops)) if keys.get(k) is None]
     core.correspond(ctx, res, name, [ops[k] for k in keep], [ho[2 * k] for k in keep], [ho[2 * k + 1] for k in keep],
                     nontrivial=lambda op, out: nts.get(op, True))
     # P_impl: every difference is a concrete violation of the property
-    for k in range(len(ops)):
-        if ho[2 * k] != ho[2 * k + 1]:
-            a, b, same = mo[k].split()
-            def show(l):
-                p = l.split(" ")
-                return unhx(p[1]).decode("latin-1") + "  [" + p[2] + "]" if p[0] == "T" else l
+    for k in sorted(keys):
+        a, b = mo[k].split()[:2]
+        def show(l):
+            p = l.split(" ")
+            return unhx(p[1]).decode("latin-1") + "  [" + p[2] + "]" if p[0] == "T" else l
+        if _count(res, keys[k]):
             res.violation("the simplified token stream of a program differs from that of its alias expansion\n%s-- expanded --\n%s  program : %s\n  expanded: %s" %
                           (unhx(a).decode(), unhx(b).decode(), show(ho[2 * k]), show(ho[2 * k + 1])),
-                          dict(kind="tk", cpp=cases[k][0], items=cases[k][1]), concrete=True,
-                          key=classify(cases[k][1])) if _count(res, classify(cases[k][1])) else None
+                          dict(kind="tk", cpp=cases[k][0], items=cases[k][1]), concrete=True, key=keys[k])
     return mo, ho
+
+
+# ---- value-flow facts and findings through the real binary ---------------------------------------------------------------
+
+def dump_facts(ctx, text, cpp, tag):
+    """(finding ids, facts) of the real cppcheck on a text: facts = per token, in order, (spelling, valueType, sorted values)"""
+    d = os.path.join(ctx.tmp, "cli_%s_%d" % (tag, ctx.rng.getrandbits(40)))
+    os.makedirs(d)
+    fn = "x.cpp" if cpp else "x.c"
+    open(os.path.join(d, fn), "wb").write(text if isinstance(text, bytes) else text.encode())
+    rc, o, e = core.sh([ctx.cppcheck, "--enable=all", "--inconclusive", "-q", "--dump", "--template={id}", "--suppress=missingIncludeSystem",
+                        "--suppress=checkersReport", "--suppress=unusedFunction", fn], cwd=d, timeout=120)
+    ids = sorted(l for l in e.split("\n") if l.strip())
+    facts = []
+    dp = os.path.join(d, fn + ".dump")
+    if os.path.exists(dp):
+        xml = open(dp, encoding="utf-8", errors="replace").read()
+        vals = {}
+        for m in re.finditer(r'<values id="([0-9a-f]+)">(.*?)</values>', xml, re.S):
+            vs = []
+            for v in re.finditer(r"<value ([^>]*)/>", m.group(2)):
+                at = dict(re.findall(r'(\w[\w-]*)="([^"]*)"', v.group(1)))
+                kind = "known" if at.get("known") == "true" else ("possible" if at.get("possible") == "true" else ("impossible" if at.get("impossible") == "true" else "other"))
+                vs.append((at.get("intvalue") or at.get("tokvalue") and "tok" or at.get("floatvalue") or "?", kind))
+            vals[m.group(1)] = sorted(vs)
+        for m in re.finditer(r"<token ([^>]*)/>", xml):
+            at = dict(re.findall(r'(\w[\w-]*)="([^"]*)"', m.group(1)))
+            facts.append((at.get("str"), at.get("valueType-type"), at.get("valueType-sign"), at.get("valueType-pointer", "0"), tuple(vals.get(at.get("values"), []))))
+    return ids, facts
+
+
+def facts_norm(facts):
+    """token facts with file-scope empty declarations dropped (see norm)"""
+    out, depth = [], 0
+    for f in facts:
+        t = f[0]
+        if t == ";" and depth == 0 and (not out or out[-1][0] in ("}", ";")):
+            continue
+        if t == "{":
+            depth += 1
+        elif t == "}":
+            depth -= 1
+        out.append(f)
+    return out
+
+
+def cli_pair(ctx, res, what, a_text, b_text, cpp, replay, facts=True, known=()):
+    """the real binary on both texts: same finding ids (and same value-flow facts when the token streams are comparable)"""
+    ia, fa = dump_facts(ctx, a_text, cpp, "a")
+    ib, fb = dump_facts(ctx, b_text, cpp, "b")
+    ok = True
+    if ia != ib:
+        extra, missing = set(ib) - set(ia), set(ia) - set(ib)
+        key = None
+        for kk, idset in known:         # a by-design difference: only these ids, only on the expanded side
+            if extra and extra <= idset and not missing:
+                key = kk
+        res.count("cli-deviation:" + str(key))
+        ok = key is not None
+        if _count(res, key or "cli"):
+            res.violation("cppcheck reports different finding ids for %s\n%s-- vs --\n%s%s vs %s" % (what, a_text, b_text, ia, ib), replay, concrete=True, key=key)
+    if facts:
+        fa, fb = facts_norm(fa), facts_norm(fb)
+        if fa != fb:
+            i = 0
+            while i < len(fa) and i < len(fb) and fa[i] == fb[i]:
+                i += 1
+            res.count("cli-deviation:facts")
+            ok = False
+            if _count(res, "facts"):
+                res.violation("cppcheck --dump: value-flow facts / value types differ for %s\n%s-- vs --\n%sfirst difference at token %d: %s vs %s" %
+                              (what, a_text, b_text, i, fa[i] if i < len(fa) else None, fb[i] if i < len(fb) else None), replay, concrete=True, key=None)
+    return ok
+
+
+def gen_macro_pair(rng):
+    """a text that uses object-like / function-like macros in value-relevant positions and its hand expansion"""
+    n = rng.choice([2, 4, 8, 16])
+    off = rng.choice([0, 0, 1, 2])
+    k = rng.randrange(3)
+    if k == 0:
+        a = "#define N %d\nint a [ N ] ;\nint f ( int i ) {\nif ( i == N + %d ) return a [ i ] ;\na [ N - 1 ] = N ;\nreturn a [ N + %d ] ;\n}\n" % (n, off, off)
+        b = "int a [ %d ] ;\nint f ( int i ) {\nif ( i == %d + %d ) return a [ i ] ;\na [ %d - 1 ] = %d ;\nreturn a [ %d + %d ] ;\n}\n" % (n, n, off, n, n, n, off)
+    elif k == 1:
+        a = "#define SQ(x) ( ( x ) * ( x ) )\n#define N %d\nint f ( void ) {\nint a [ N ] ;\nint j = SQ ( %d ) ;\na [ j ] = 0 ;\nreturn 10 / ( j - SQ ( %d ) ) ;\n}\n" % (n, off + 1, off + 1)
+        b = "int f ( void ) {\nint a [ %d ] ;\nint j = ( ( %d ) * ( %d ) ) ;\na [ j ] = 0 ;\nreturn 10 / ( j - ( ( %d ) * ( %d ) ) ) ;\n}\n" % (n, off + 1, off + 1, off + 1, off + 1)
+    else:
+        a = "#define T int\n#define ZERO ( 1 - 1 )\nT g ( T p ) {\nT * q = 0 ;\nif ( p == ZERO ) return * q ;\nreturn %d / ZERO ;\n}\n" % n
+        b = "int g ( int p ) {\nint * q = 0 ;\nif ( p == ( 1 - 1 ) ) return * q ;\nreturn %d / ( 1 - 1 ) ;\n}\n" % n
+    return a, b
+
+
+def gen_template_pair(rng):
+    """an explicitly instantiated function / class template and the equivalent hand-written entity (same names)"""
+    ty = rng.choice(["int", "char", "long", "short"])
+    n = rng.choice([2, 3, 5])
+    off = rng.choice([0, 1, 2])
+    k = rng.randrange(3)
+    if k == 0:
+        a = "template < class T > T idx ( T x ) {\nT a [ %d ] ;\na [ %d ] = x ;\nreturn a [ 0 ] ;\n}\ntemplate %s idx < %s > ( %s ) ;\n" % (n, n + off, ty, ty, ty)
+        b = "%s idx ( %s x ) {\n%s a [ %d ] ;\na [ %d ] = x ;\nreturn a [ 0 ] ;\n}\n" % (ty, ty, ty, n, n + off)
+    elif k == 1:
+        a = ("template < class T > struct W {\nT v [ %d ] ;\nT get ( ) { return v [ %d ] ; }\n} ;\ntemplate struct W < %s > ;\n" % (n, n + off, ty))
+        b = ("struct W {\n%s v [ %d ] ;\n%s get ( ) { return v [ %d ] ; }\n} ;\n" % (ty, n, ty, n + off))
+    else:
+        a = "template < class T > T dz ( T x ) {\nT z = 0 ;\nif ( x == %d ) return x / z ;\nreturn z ;\n}\ntemplate %s dz < %s > ( %s ) ;\n" % (n, ty, ty, ty)
+        b = "%s dz ( %s x ) {\n%s z = 0 ;\nif ( x == %d ) return x / z ;\nreturn z ;\n}\n" % (ty, ty, ty, n)
+    return a, b
 
 
 def run(ctx, res):
@@ -280,57 +460,78 @@ def run(ctx, res):
     exe = ctx.harness("c06")
     corpus = load_corpus()
     if corpus:
-        tie(ctx, res, exe, drv, [(c["cpp"], c["items"], True) for c in corpus], "tokenizer-corpus")
+        cmo, cho = tie(ctx, res, exe, drv, [(c["cpp"], c["items"], True) for c in corpus], "tokenizer-corpus")
+        for c, m in zip(corpus, cmo):
+            if c.get("cli"):
+                a, b = m.split()[:2]
+                cli_pair(ctx, res, "a program and its alias expansion", unhx(a).decode(), unhx(b).decode(), c["cpp"],
+                         dict(kind="cli", cpp=c["cpp"], items=c["items"]), known=[(KEY_CONST, CONST_IDS), (KEY_PORT, PORT_IDS)])
     cases = []
+    distinct = []
     for i in range(3000 if thorough else 500):
         cpp = rng.random() < 0.5
         reuse = rng.random() < 0.5
-        items, st = gen_prog(rng, cpp, rng.choice([3, 5, 8, 12]), reuse)
+        for _ in range(20):                         # every program uses at least one alias
+            items, st = gen_prog(rng, cpp, rng.choice([3, 5, 8, 12]), reuse)
+            if st["aliasuse"] >= 1:
+                break
+        if not reuse:
+            distinct.append(len(cases))
         cases.append((cpp, items, st["aliasuse"] >= 1 and (st["redecl"] >= 1 or not reuse)))
         res.count("stream:" + ("hiding" if reuse else "distinct-names"))
         res.count("lang:" + ("cpp" if cpp else "c"))
         res.count("alias-uses:%d" % min(st["aliasuse"], 4))
         res.count("redeclared-names:%d" % min(st["redecl"], 3))
     mo, ho = tie(ctx, res, exe, drv, cases, "tokenizer")
-    if thorough:
-        # the real binary on both files: same finding ids
-        bad = []
-        n = 0
-        clean = [k for k in range(len(cases)) if ho[2 * k] == ho[2 * k + 1]]
-        for k in rng.sample(clean, min(80, len(clean))):
-            cpp = cases[k][0]
-            a, b, same = mo[k].split()
-            outs = []
-            for tag, h in (("p", a), ("e", b)):
-                d = os.path.join(ctx.tmp, "cli%d%s" % (k, tag))
-                os.makedirs(d)
-                fn = "x.cpp" if cpp else "x.c"
-                open(os.path.join(d, fn), "wb").write(unhx(h))
-                rc, o, e = core.sh([ctx.cppcheck, "--enable=all", "--inconclusive", "-q", "--template={id}", "--suppress=missingIncludeSystem",
-                                    "--suppress=checkersReport", "--suppress=unusedFunction", fn], cwd=d, timeout=120)
-                outs.append(sorted(l for l in e.split("\n") if l.strip()))
-            n += 1
-            if outs[0] != outs[1]:
-                extra, missing = set(outs[1]) - set(outs[0]), set(outs[0]) - set(outs[1])
-                key = KEY_CONST if (extra and extra <= CONST_IDS and not missing) else None
-                res.count("cli-deviation:" + str(key))
-                if key is None:
-                    bad.append("%s\n%s vs %s" % (unhx(a).decode(), outs[0], outs[1]))
-                if _count(res, key or "cli"):
-                    res.violation("cppcheck reports different finding ids for a program and its alias expansion\n%s%s vs %s" % (unhx(a).decode(), outs[0], outs[1]),
-                                  dict(kind="cli", cpp=cpp, items=cases[k][1]), concrete=True, key=key)
-        res.traces_validated += n - len(bad)
-        res.extra["cli_pairs"] = n
-        res.oblig("correspondence:cli-finding-ids", not bad, "correspondence", "" if not bad else "%d of %d pairs differ; first: %s" % (len(bad), n, bad[0]))
+    # ---- the real binary: finding ids and --dump facts (values, value types) of a program == those of its expansion --------
+    clean = [k for k in range(len(cases)) if ho[2 * k] == ho[2 * k + 1]]
+    cd = [k for k in clean if k in set(distinct)]
+    pick = rng.sample(cd, min(40 if thorough else 6, len(cd))) + rng.sample(clean, min(40 if thorough else 4, len(clean)))
+    nbad = 0
+    for k in pick:
+        a, b = mo[k].split()[:2]
+        if not cli_pair(ctx, res, "a program and its alias expansion", unhx(a).decode(), unhx(b).decode(), cases[k][0],
+                        dict(kind="cli", cpp=cases[k][0], items=cases[k][1]), known=[(KEY_CONST, CONST_IDS), (KEY_PORT, PORT_IDS)]):
+            nbad += 1
+    res.traces_validated += len(pick) - nbad
+    res.extra["cli_alias_pairs"] = len(pick)
+    # ---- the other two families of the property, sampled through the real binary only (no model) ---------------------------
+    for i in range(40 if thorough else 5):
+        a, b = gen_macro_pair(rng)
+        res.count("cli-macro-pair")
+        cli_pair(ctx, res, "a text with macros and its hand expansion", a, b, False, dict(kind="text", cpp=False, a=a, b=b), facts=False, known=[(KEY_MACRO, MACRO_IDS)])
+    for i in range(40 if thorough else 5):
+        a, b = gen_template_pair(rng)
+        res.count("cli-template-pair")
+        cli_pair(ctx, res, "an explicitly instantiated template and the hand-written entity", a, b, True, dict(kind="text", cpp=True, a=a, b=b), facts=False)
+    dev = sum(n for k, n in res.dist.items() if k.startswith("cli-deviation:None") or k == "cli-deviation:facts")
+    res.oblig("correspondence:cli-findings-and-facts", dev == 0, "correspondence", "" if dev == 0 else "%d CLI pairs differ (see the violations)" % dev)
 
 
 def replay(ctx, res, rp):
     drv = ctx.driver("drv_c06")
     exe = ctx.harness("c06")
+    if rp.get("kind") == "text":
+        _seen.clear()
+        ok = cli_pair(ctx, res, "replayed pair", rp["a"], rp["b"], rp["cpp"], rp, facts=False)
+        for v in res.violations:
+            print(v["what"])
+        print("replay: %s" % ("does not fail" if ok else "still fails"))
+        return 0 if ok else 1
+    if rp.get("kind") == "cli":
+        _seen.clear()
+        rc, mo, err = core.run_lines(drv, [], ["ex " + " ".join(rp["items"])])
+        a, b = mo[0].split()[:2]
+        ok = cli_pair(ctx, res, "replayed pair", unhx(a).decode(), unhx(b).decode(), rp["cpp"], rp)
+        for v in res.violations:
+            print(v["what"])
+        fail = any(v["key"] is None for v in res.violations)
+        print("replay: %s" % ("still fails" if fail else "does not fail"))
+        return 1 if fail else 0
     if rp.get("kind") != "tk":
         print("replay: not replayable"); return 0
     rc, mo, err = core.run_lines(drv, [], ["ex " + " ".join(rp["items"])])
-    a, b, same = mo[0].split()
+    a, b, same = mo[0].split()[:3]
     lang = "cpp" if rp["cpp"] else "c"
     rc, ho, err = core.run_lines(exe, [], ["tk %s %s" % (lang, a), "tk %s %s" % (lang, b)])
     print(unhx(a).decode()); print("-- expanded --"); print(unhx(b).decode())
